@@ -162,25 +162,68 @@ func raceOne(r RaceRun) RaceResult {
 		}
 	}()
 	wg.Wait()
-	quiet := func() {
+	// The MQTT-SN loop handles the commands one after the other whatever the MQTT loop does, so the
+	// number of acknowledgements (sleep ack, PINGRESP of a wake-up while asleep, CONNACK) is known in
+	// advance; quiescence = all of them have arrived (and, once the client is awake or has been woken,
+	// all N messages), then a grace period for anything that should NOT come.  A fixed "no output for
+	// a few milliseconds" criterion cut runs short on a loaded machine.
+	expectAcks := func(cmds []string) int {
+		n, sleeping := 0, false
+		for _, c := range cmds {
+			switch c {
+			case "sleep":
+				n++
+				sleeping = true
+			case "wake":
+				if sleeping {
+					n++
+				}
+			case "connect":
+				n++
+				sleeping = false
+			}
+		}
+		return n
+	}
+	counts := func() (acks, msgs int) {
+		mu.Lock()
+		defer mu.Unlock()
+		for _, d := range cout {
+			if p, err := snref.Parse(d); err == nil && p.Type == snref.PUBLISH {
+				msgs++
+			} else {
+				acks++
+			}
+		}
+		return
+	}
+	quiet := func(cmds []string, wantMsgs bool) {
+		want := expectAcks(cmds)
+		deadline := time.Now().Add(4 * time.Second)
+		for time.Now().Before(deadline) {
+			a, m := counts()
+			if a >= want && (!wantMsgs || m >= r.N) {
+				break
+			}
+			time.Sleep(2 * time.Millisecond)
+		}
+		// grace period: nothing else is expected; what still arrives is recorded
 		last := -1
-		for i := 0; i < 200; i++ {
-			time.Sleep(5 * time.Millisecond)
-			mu.Lock()
-			n := len(cout)
-			mu.Unlock()
-			if n == last && i > 4 {
+		for i := 0; i < 100; i++ {
+			time.Sleep(10 * time.Millisecond)
+			a, m := counts()
+			if a+m == last && i >= 3 {
 				return
 			}
-			last = n
+			last = a + m
 		}
 	}
-	quiet()
+	quiet(r.Cmds, !asleep)
 	if asleep {
 		// final wake-up after everything has been handed over: flushes the buffer
 		snConn.Inject(snref.Encode(snref.Pkt{Type: snref.PINGREQ, ClientID: "c1"}))
 		res.Cmds = append(res.Cmds, "wake")
-		quiet()
+		quiet(res.Cmds, true)
 	}
 	mu.Lock()
 	defer mu.Unlock()
